@@ -220,6 +220,8 @@ def impl(case):
         if case['kind'] == 'weights':
             xs = np.array([float(v) for v in _f(case['xs'])])
             nxs = np.array([float(v) for v in _f(case['nxs'])])
+            if all(Fraction(v).denominator == 1 for v in case['xs']) and len(case['xs']) % 2 == 0:
+                xs = xs.astype('i')       # level numbers, hPa levels, heights stored as integers; the targets stay fractional
             if case.get('fillv'):
                 w = getinterpweights(xs, nxs, extrapolate=case['extrapolate'], fill_value=float(case['fillv']))
                 inside = (nxs >= xs.min()) & (nxs <= xs.max())
@@ -270,7 +272,35 @@ def impl(case):
         dst = np.array([float(v) for v in _f(case['dst'])], dtype='f')
         if case['kind'] == 'sigma':
             c = sigma2coeff(src, dst)
-            return dict(cols=[[lib.show_rat(v) for v in c[:, j]] for j in range(c.shape[1])])
+            res = dict(cols=[[lib.show_rat(v) for v in c[:, j]] for j in range(c.shape[1])])
+            # the mass-conserving weights (several source layers per target layer) applied with interpvars along a dimension
+            # of a 3-D variable, against the plain contraction
+            try:
+                import PseudoNetCDF as pnc
+                from PseudoNetCDF.core._functions import interpvars
+                dp, ndp = -np.diff(src.astype('d')), -np.diff(dst.astype('d'))
+                n, m = c.shape
+                if n != m and n > 2 and (ndp > 0).all() and n not in (2 + n % 2, 3):
+                    W = (c * dp[:, None] / ndp[None, :]).T          # (new, old)
+                    f = pnc.PseudoNetCDFFile()
+                    shape = [2 + n % 2, n, 3]
+                    for dk, ln in zip('tzx', shape):
+                        f.createDimension(dk, ln)
+                    v = f.createVariable('V', 'd', tuple('tzx'))
+                    idx = np.indices(shape)
+                    vals = 2.5 + idx[1] * (idx[1] + 1.) + 10. * idx[0] + 100. * idx[2]
+                    v[:] = vals
+                    got = np.asarray(interpvars(f, W.copy(), 'z').variables['V'][:])
+                    want = np.moveaxis(np.tensordot(vals, W.T, axes=(1, 0)), -1, 1)
+                    if got.shape != want.shape or not np.allclose(got, want, rtol=0, atol=1e-6):
+                        res['ivbad'] = 'interpvars with mass-conserving weights (%d -> %d layers): %s' % (
+                            n, m, 'shape %s, expected %s' % (got.shape, want.shape) if got.shape != want.shape
+                            else 'values differ from the contraction with the weights')
+            except lib.HarnessError:
+                raise
+            except Exception as e:
+                res['ivbad'] = 'interpvars with mass-conserving weights raised %s %s' % (type(e).__name__, str(e)[:80])
+            return res
         # apply: interpSigma(conserve) on a small IOAPI file; values are float so compare approximately
         return _apply(case, src, dst)
     except Exception as e:
@@ -304,14 +334,19 @@ def _apply(case, src, dst):
     f.NVARS = 1
     setattr(f, 'VAR-LIST', 'O3'.ljust(16))
     f.updatemeta()
+    vg0 = np.array(f.VGLVLS, dtype='d').copy()
     if case.get('itype'):
         dst = np.array([float(v) for v in _apply_grids(case)[1]], dtype='d')
+        f.interpSigma(dst, vgtop=case.get('vgtop'), interptype=case['itype'])     # the same object was regridded before
         o = f.interpSigma(dst, vgtop=case.get('vgtop'), interptype=case['itype'])
     else:
+        f.interpSigma(dst, interptype='conserve')
         o = f.interpSigma(dst, interptype='conserve')
     nv = o.variables['O3']
     return dict(vals=[float(x) for x in nv[0, :, 0, 0]], const=[float(x) for x in nv[0, :, 0, 1]],
-                nlay=len(o.dimensions['LAY']), vglvls=[lib.show_rat(x) for x in o.VGLVLS])
+                nlay=len(o.dimensions['LAY']), vglvls=[lib.show_rat(x) for x in o.VGLVLS],
+                srcchanged=(None if np.array_equal(vg0, np.array(f.VGLVLS, dtype='d')) else
+                            'VGLVLS of the source file changed from %s to %s' % (vg0.tolist(), np.array(f.VGLVLS, dtype='d').tolist())))
 
 
 def _levelno(xs):
@@ -346,7 +381,8 @@ def _interpdim(case):
         tv[:] = np.array(tgts).T
         o = f.interpDimension('z', tv, coordkey='ZH', extrapolate=case['extrapolate'], **kwf)
     else:
-        zc = f.createVariable('P' if case.get('ckey') else 'z', 'd', ('z',))
+        intc = all(Fraction(v).denominator == 1 for v in case['srcs'][0]) and len(case['data'][0]) % 2 == 0
+        zc = f.createVariable('P' if case.get('ckey') else 'z', 'i' if intc else 'd', ('z',))
         zc[:] = srcs[0]
         if case.get('ckey'):
             lv = f.createVariable('z', 'd', ('z',))
@@ -581,7 +617,9 @@ def _oracle_interpdim(case, res):
         for j, tv in enumerate(t):
             inside = lo <= tv <= hi
             cl = tv if (inside or case['extrapolate']) else (lo if tv < lo else hi)
-            if Fraction(coord[j]) != cl:
+            intc = (not case['nd']) and all(Fraction(v).denominator == 1 for v in case['srcs'][0]) and len(case['data'][0]) % 2 == 0
+            if Fraction(coord[j]) != cl and not (intc and Fraction(coord[j]) == int(cl)):
+                # (an integer-typed coordinate variable keeps its type: the C cast of the interpolated value)
                 return 'interpolated coordinate of column %d is %s at target %s' % (k, coord[j], tv)
             if case.get('ckey') and k == 0 and Fraction(res['levelno'][j]) != 3 * cl + 7:
                 return 'interpDimension with coordkey: the variable named like the dimension (3*coordinate+7) is %s at target %s' % (res['levelno'][j], tv)
@@ -641,6 +679,10 @@ def oracle(case, res):
                 if w != [Fraction(int(i == k)) for i in range(len(xs))]:
                     return 'target equal to source node %d does not give unit weights: %s' % (k, w)
         return None
+    if res.get('ivbad'):
+        return res['ivbad']
+    if res.get('srcchanged'):
+        return 'interpSigma changed the file it was called on: ' + res['srcchanged']
     src, dst = _f(case['src']), _f(case['dst'])
     if case['kind'] == 'apply' and case.get('itype'):
         src, dst = _apply_grids(case)
